@@ -389,3 +389,45 @@ def c09_m_tx_roundtrip(ctx, v):
             return
         v.covers_total += 1
         v.covers_sat += 1 if n else 0
+
+
+def c09_m_message_tag_agreement(ctx, v):
+    """Message::deserialize and Message::get_type_value (what Message::serialize writes as the
+    first byte) agree for every tag: for every buffer of length 0..=200 that decodes, the decoded
+    message is of the variant whose type value IS the buffer's first byte — a reply of one kind
+    never turns into another kind on the wire (e.g. an Error into a Result).  Payload round trips
+    of the individual message types are separate obligations."""
+    from . import obl_c10
+    from .models import as_enum, enum_is, payload
+    body = ctx.body(r"^message::<impl at [^>]*>::deserialize$")
+    gtv = ctx.body(r"^message::<impl at [^>]*>::get_type_value$")
+    seen = []
+
+    def on_ok(ex, buf, o):
+        e = as_enum(ex, o.value, "Result")
+        if e.variant == "Err" or not ex.feasible(o.pc, enum_is(ex, e, "Ok")):
+            return
+        msg = payload(ex, e, "Ok")
+        st = _st(o.pc)
+        outs = ex.run(gtv, [S.Ref(S.Cell(msg))], st)
+        for g in outs:
+            if g.kind != "return":
+                if g.kind in ("unsupported", "unwound", "path-limit"):
+                    v.undecided("get_type_value: %s %s" % (g.kind, g.info))
+                continue
+            tag = z3.Select(orig[0], z3.BitVecVal(0, 64))   # the buffer as handed to the decoder (it is consumed / re-sliced inside)
+            r, m = ex.model_for(g.pc, z3.And(enum_is(ex, e, "Ok"), g.value.bv != tag))
+            v.queries += 1
+            if r == z3.sat:
+                L.fail_structural(v, g, "a message sent with type byte %d decodes into a message of type %d" % (m.eval(tag, model_completion=True).as_long(), m.eval(g.value.bv, model_completion=True).as_long()))
+            elif r == z3.unsat:
+                seen.append(1)
+    vv = type(v)()
+    orig = []
+    obl_c10._explore_total(ctx, vv, "Message::deserialize", body, lambda ex, b: (orig.append(b.arr), [b])[1], 200, 8,
+                           no_inline=[r"Block::deserialize_from_net$", r"Transaction::deserialize_from_net$", r"HandshakeResponse.*deserialize$"], on_ok=on_ok)
+    v.paths += vv.paths
+    if vv.status == "undecided" and vv.why:
+        return v.undecided(vv.why)
+    v.covers_total += 1
+    v.covers_sat += 1 if seen else 0
